@@ -148,7 +148,13 @@ class ResponseDriver:
             raise Divergence(where + ': stored empty signal type', 'voltage', ant.signals[-1].value_type)
         # dipole gains directly
         if c['cls'] == 'dipole':
-            rr, theta, phi = ant._convert_to_antenna_coordinates(np.array(ant.position) - d / np.linalg.norm(d))
+            # spherical angles of the source direction (-d) in the antenna frame, from the public axes
+            zax = np.asarray(ant.z_axis, dtype=float) / np.linalg.norm(ant.z_axis)
+            xax = np.asarray(ant.x_axis, dtype=float) / np.linalg.norm(ant.x_axis)
+            yax = np.cross(zax, xax)
+            u = -np.asarray(d, dtype=float) / np.linalg.norm(d)
+            theta = float(np.arccos(np.clip(np.dot(u, zax), -1, 1)))
+            phi = float(np.arctan2(np.dot(u, yax), np.dot(u, xax)))
             self.same(where + ': directional gain', [ant.directional_gain(theta, phi)], [np.sqrt(max(0.0, 1 - (fr[2] / r) ** 2))])
             self.same(where + ': polarization gain', [ant.polarization_gain(p / np.linalg.norm(p))], [last['polz'] / np.linalg.norm(p)])
 
